@@ -28,6 +28,12 @@ def after (d : UInt8) : Bytes → Bytes
   | [] => []
   | b :: bs => if b = d then bs else after d bs
 
+/-- `memchr(d, &data[..k])`: index of the first `d` among the first `k` bytes -/
+def memchrWithin (d : UInt8) : Nat → Bytes → Option Nat
+  | 0, _ => none
+  | _ + 1, [] => none
+  | k + 1, b :: bs => if b = d then some 0 else (memchrWithin d k bs).map (· + 1)
+
 /-- `read_until(d, buf)`: loop { available = fill_buf(); match memchr(d, available) { Some(i) =>
     extend(available[..=i]), consume(i+1), done; None => extend(available), consume(len) };
     if done || used == 0 { return } }.
@@ -39,14 +45,12 @@ def readUntil (d : UInt8) : List Nat → Bytes → Bytes × Bytes × List Nat
     match data with
     | [] => ([], [], c :: cs)                       -- fill_buf returned an empty slice: used == 0
     | _ :: _ =>
-      let k := max c 1
-      let chunk := data.take k
-      if chunk.contains d then
-        let used := (through d chunk).length
-        (through d chunk, data.drop used, if used < k then (k - used) :: cs else cs)
-      else
+      let k := max c 1                              -- `available = &data[..min(k, len)]`
+      match memchrWithin d k data with
+      | some i => (data.take (i + 1), data.drop (i + 1), if i + 1 < k then (k - (i + 1)) :: cs else cs)
+      | none =>
         let r := readUntil d cs (data.drop k)
-        (chunk ++ r.1, r.2.1, r.2.2)
+        (data.take k ++ r.1, r.2.1, r.2.2)
 
 /-! ### UTF-8 validity (Unicode 15 table 3-7, what `core::str::from_utf8` accepts) -/
 
